@@ -257,8 +257,8 @@ Proof. unfold wf_hdr, ex_hdr. cbn [h_ts h_type h_sid h_next h_flags]. lia. Qed.
    (gen/Trans*.v); the theorems say that, for ALL inputs, they compute what the hand-written model functions used in
    the statements above compute (res_sim: the same value, or both an error, or both a panic), under the premises Go's
    types provide.  A change to one of these Go functions that alters its behaviour makes the proof below fail. *)
-From GB Require Import Model.Header Model.Events Model.Rbr Model.Cell Base.GoSem Proofs.TransTactics Proofs.TransEquivCell Proofs.TransEquivMeta Proofs.TransEquivBitmap Proofs.TransEquivHeader Proofs.TransEquivEvents Proofs.TransEquivRbr.
-From GBGen Require Import TransCell TransMeta TransBitmap TransHeader TransEvents TransRbr.
+From GB Require Import Model.Header Model.Events Model.Rbr Model.Cell Base.GoSem Proofs.TransTactics Proofs.TransEquivCell Proofs.TransEquivMeta Proofs.TransEquivBitmap Proofs.TransEquivHeader Proofs.TransEquivEvents Proofs.TransEquivChecksum Proofs.TransEquivRbr.
+From GBGen Require Import TransCell TransMeta TransBitmap TransHeader TransEvents TransChecksum TransRbr.
 Open Scope Z_scope.
 
 Theorem C16_tie_Format : forall ev,
@@ -286,6 +286,19 @@ Theorem C16_tie_Rand : forall ev f,
   hlen_byte f -> res_sim (binlogEvent_Rand_g ev (Format_of f)) (ev_rand f ev).
 Proof. exact binlogEvent_Rand_equiv. Qed.
 Print Assumptions C16_tie_Rand.
+
+(* "with a checksum or without": the event parseEvents goes on with after StripChecksum, and the checksum bytes it
+   discards, for every checksum algorithm code (off, undefined, CRC32, any other = error) *)
+Theorem C16_tie_StripChecksum : forall f ev,
+  len_ok ev ->
+  res_sim (mysql56BinlogEvent_StripChecksum_g ev (Format_of f)) (strip_checksum56_pair f ev) /\
+  res_map fst (strip_checksum56_pair f ev) = strip_checksum56 f ev /\
+  (forall e c, strip_checksum56_pair f ev = Ok (e, c) -> ev = e ++ c).
+Proof.
+  intros f ev L. split; [exact (mysql56BinlogEvent_StripChecksum_equiv f ev L)|].
+  split; [exact (strip_pair_fst f ev)|]. exact (strip_pair_parts f ev).
+Qed.
+Print Assumptions C16_tie_StripChecksum.
 
 Theorem C16_tie_HeaderSize : forall f typ,
   res_sim (BinlogFormat_HeaderSize_g (Format_of f) typ) (header_size f typ).
